@@ -5,6 +5,8 @@ cd /verif
 out=work/seedmatrix.txt; mkdir -p work; : > $out
 ids="$@"; [ -z "$ids" ] && ids=$(ls seeded)
 git -C /repo status --short | grep -q . && { echo "/repo not clean"; exit 2; }
+# evidence files describe the unchanged tree: keep them aside while patched trees are checked
+ev=$(mktemp -d); cp -a evidence/. $ev/
 for sid in $ids; do
   d=seeded/$sid
   prop=$(jq -r .property $d/meta.json)
@@ -15,5 +17,6 @@ for sid in $ids; do
   streams=$(grep "^VIOLATION" work/seedmatrix-$sid.log | sed 's/.*replays\/[^-]*-[0-9]*-//; s/\.json.*//' | tr '\n' ',' )
   echo "$sid $prop rc=$rc violations=$v streams=$streams $(tail -1 work/seedmatrix-$sid.log | sed 's/.*cases//')" | tee -a $out
 done
+cp -a $ev/. evidence/; rm -rf $ev
 git -C /repo status --short | grep -q . && echo "WARNING: /repo modified"
 echo MATRIX-DONE | tee -a $out
